@@ -143,6 +143,18 @@ func (w *world) apply(op Op) {
 		b.bc = statecache.NewBlockCache(w.sc, statecache.Block{Round: round, Hash: b.hash, PrevHash: prev})
 		w.m.blocks = append(w.m.blocks, b)
 		w.m.byHash[b.hash] = b
+	case "twin":
+		// a block that is already committed is executed again: a second BlockCache object with the same hash. Its
+		// Commit is rejected (the hash is committed); whatever it holds stays its own until it gets a new hash.
+		if o := w.blk(op.B); o != nil && o.committed && o.twinOf == nil {
+			b := &mblock{hash: o.hash, prev: o.prev, round: o.round, pre: map[string]entry{}, twinOf: o}
+			b.bc = statecache.NewBlockCache(w.sc, statecache.Block{Round: o.round, Hash: o.hash, PrevHash: o.prev})
+			w.m.blocks = append(w.m.blocks, b)
+			w.stats.Inc("probe.second-cache-object-for-a-committed-block")
+		} else {
+			// keep block indices aligned with the generator: an unrelated fresh block
+			w.apply(Op{K: "blk", P: -1})
+		}
 	case "sethash":
 		if b := w.blk(op.B); b != nil && !b.committed {
 			nh := fmt.Sprintf("%s.r%d", b.hash, op.N)
@@ -156,7 +168,10 @@ func (w *world) apply(op Op) {
 				}
 			}
 			w.guard("SetBlockHash", func() { b.bc.SetBlockHash(nh) })
-			delete(w.m.byHash, b.hash)
+			if b.twinOf == nil {
+				delete(w.m.byHash, b.hash)
+			}
+			b.twinOf = nil // with a hash of its own it is an ordinary block
 			b.hash = nh
 			w.m.byHash[nh] = b
 		}
@@ -244,6 +259,10 @@ func (w *world) apply(op Op) {
 		if b := w.blk(op.B); b != nil {
 			if w.guard("BlockCache.Commit", func() { b.bc.Commit() }) {
 				return
+			}
+			if b.twinOf != nil {
+				w.stats.Inc("probe.commit-rejected-hash-already-committed")
+				return // rejected: nothing is published and the twin keeps what it holds
 			}
 			if !b.committed {
 				b.committed = true
